@@ -161,6 +161,10 @@ def collide_cases(ctx, opts, tag):
             u = ctx.rng.choice(['1', '3', '15'])
             ops += [f"P~{u}:{A}~0~U~~", f"P~{u}:{B}~0~U~~", f"R~{u}:{A}~{u}:{B}", f"P~{u}:{A.lower()}~0~U~~", f"R~{u}:{A}~{u}:{B.lower()}", f"L~{u}:{B.lower()}", f"U~{u}:{B.lower()}", f"P~{C}~0~U~~", f"R~{u}:{A}~{u}:{C}", f"R~{u}:{C}~{u}:{A}", f"P~{u}:{C}~0~U~~",
                     f"R~{C}~{B}", f"D~{u}:{B}", f"R~{u}:{A}~{u}:{B}"]
+        # one name a strict prefix of the other, the longer one in the earlier directory slot (it takes the slot of a deleted file)
+        if opts != '-':
+            for short, long in [('FO' + ext, 'FOO' + ext), ('F1' + ext, 'F10' + ext)] + ([('FO.T', 'FO.TX')] if ext else []):
+                ops += [f"P~SCR{ext}~0~U~~~v", f"P~{short}~0-1~U~~~v", f"D~SCR{ext}", f"P~{long}~0-2~U~~~v", f"L~{short}", f"U~{short}", f"R~{short}~FX{ext}", f"D~FX{ext}", f"D~{long}"]
         # a name of the greatest length, then the same name with one more character: nothing may be done to the file through the
         # longer name (delete, lock, unlock, rename, retype, store), which names no file
         full = {'dos33': 'ABCDEFGHIJKLMNOPQRSTUVWXYZ1234', 'dos32': 'ABCDEFGHIJKLMNOPQRSTUVWXYZ1234', 'prodos': 'ABCDEFGHIJKLMNO', 'pascal': 'ABCDEFGHIJKLMNO',
@@ -243,6 +247,12 @@ def subdir_cases(ctx, opts, tag):
         for last_op in (f"P~D1/BIG{ext}~0-1~U~~", "M~D1/SUB"):
             # (the one unit left is one that held a file before: its old content must not be taken for directory entries)
             ops = ["M~D1"] + [f"P~D1/F{i}{ext}~0~U~~~v" for i in range(n)] + [f"P~KEEP{ext}~0-2~U~~~v", f"P~ONE{ext}~0~U~~~v", "Z~0", f"D~ONE{ext}", last_op, f"D~KEEP{ext}", f"P~D1/AFTER{ext}~0~U~~~v"]
+            out.append(f"fsh {tag}{k} {fs} {lab} {opts} {';'.join(ops)}")
+            k += 1
+        # directories whose names have an extension (legal on FAT, unusual), nested
+        if fs == 'fat' and opts != '-':
+            ops = ["M~DATA.DIR", "P~DATA.DIR/NOTE.TXT~0-1~U~~~v", "M~DATA.DIR/SUB.X", "P~DATA.DIR/SUB.X/IN.T~0~U~~~v", "M~PLAIN", "P~PLAIN/A.TXT~0~U~~~v", "P~ROOT.TXT~0~U~~~v",
+                   "R~DATA.DIR~DATA2.D", "P~DATA2.D/MORE.T~0~U~~~v", "D~DATA2.D/NOTE.TXT"]
             out.append(f"fsh {tag}{k} {fs} {lab} {opts} {';'.join(ops)}")
             k += 1
         # the file image of a directory stored under another name is a file, not a second way into the directory's files
